@@ -757,4 +757,114 @@ theorem findInL_updateInL_other (i m : Nat) (d : Str) (hne : m ≠ i) : (l : Lis
     exact orElse_map_congr sigD _ _ _ _ (findIn_updateIn_other i m d hne t) (findInL_updateInL_other i m d hne r)
 end
 
+/-! ### replaceChild: the list algebra and the glue between node lists and id lists -/
+theorem map_replace_id (old new : Nat) : ∀ (l : List Nat), old ∉ l → l.map (fun x => if x = old then new else x) = l
+  | [], _ => rfl
+  | x :: r, h => by
+    simp only [List.mem_cons, not_or] at h
+    have : ¬ x = old := fun e => h.1 e.symm
+    simp [this, map_replace_id old new r h.2]
+
+theorem head?_mem_of {l : List Nat} {i : Nat} (h : l.head? = some i) : i ∈ l := by
+  cases l with
+  | nil => simp at h
+  | cons a b => simp at h; simp [h]
+
+theorem insertBeforeIds_head (c : Nat) : ∀ (l : List Nat), insertBeforeIds c l.head? l = c :: l
+  | [] => rfl
+  | x :: r => by simp [insertBeforeIds]
+
+theorem replace_ids (old new : Nat) (hne : new ≠ old) : ∀ (L : List Nat), L.Nodup → old ∈ L →
+    insertBeforeIds new ((((L.dropWhile (· != old)).drop 1).filter (· != new)).head?) ((L.filter (· != old)).filter (· != new))
+      = (L.filter (· != new)).map (fun x => if x = old then new else x)
+  | [], _, hm => by simp at hm
+  | x :: r, hnd, hm => by
+    have hx : x ∉ r := (List.nodup_cons.mp hnd).1
+    have hr : r.Nodup := (List.nodup_cons.mp hnd).2
+    by_cases hxo : x = old
+    · subst hxo
+      have h1 : ((x :: r).dropWhile (· != x)).drop 1 = r := by simp [List.dropWhile]
+      have h2 : (x :: r).filter (· != x) = r := by
+        simp only [List.filter, bne_self_eq_false]
+        exact List.filter_eq_self.mpr (fun a ha => by simpa using (fun e : a = x => hx (e ▸ ha)))
+      have h3 : (x :: r).filter (· != new) = x :: r.filter (· != new) := by
+        have : (x != new) = true := by simpa using (fun e : x = new => hne e.symm)
+        simp [List.filter, this]
+      rw [h1, h2, h3, insertBeforeIds_head]
+      have hnm : x ∉ r.filter (· != new) := fun h => hx (List.mem_filter.mp h).1
+      rw [List.map_cons, map_replace_id x new _ hnm]; simp
+    · have hm' : old ∈ r := by
+        rcases List.mem_cons.mp hm with h | h
+        · exact absurd h.symm hxo
+        · exact h
+      have hxo' : (x != old) = true := by simpa using hxo
+      have ih := replace_ids old new hne r hr hm'
+      have hdw : (x :: r).dropWhile (· != old) = r.dropWhile (· != old) := by simp [List.dropWhile, hxo']
+      rw [hdw]
+      by_cases hxn : x = new
+      · subst hxn
+        have e1 : ((x :: r).filter (· != old)).filter (· != x) = (r.filter (· != old)).filter (· != x) := by
+          simp [List.filter, hxo']
+        have e2 : (x :: r).filter (· != x) = r.filter (· != x) := by simp [List.filter]
+        rw [e1, e2]; exact ih
+      · have hxn' : (x != new) = true := by simpa using hxn
+        have e1 : ((x :: r).filter (· != old)).filter (· != new) = x :: (r.filter (· != old)).filter (· != new) := by
+          simp [List.filter, hxo', hxn']
+        have e2 : (x :: r).filter (· != new) = x :: r.filter (· != new) := by simp [List.filter, hxn']
+        rw [e1, e2]
+        simp only [List.map_cons, hxo, if_false]
+        rw [← ih]
+        cases href : (((r.dropWhile (· != old)).drop 1).filter (· != new)).head? with
+        | none => simp [insertBeforeIds]
+        | some i =>
+          have hi : i ∈ r := by
+            have := head?_mem_of href
+            have := (List.mem_filter.mp this).1
+            exact (List.dropWhile_sublist _).subset (List.mem_of_mem_drop this)
+          have : (x == i) = false := by simpa using (fun e : x = i => hx (e ▸ hi))
+          simp [insertBeforeIds, this]
+
+
+theorem count_ids_le (a : Nat) : ∀ (l : List Node), count a (l.map (·.id)) ≤ cntL a l
+  | [] => by simp
+  | n :: r => by
+    have ih := count_ids_le a r
+    rw [cntL_cons]
+    cases n with
+    | mk j k d as ks =>
+      have e : (Node.mk j k d as ks :: r).map (·.id) = j :: r.map (·.id) := rfl
+      rw [e, List.count_cons, cnt_mk]
+      split <;> omega
+
+theorem cntL_kids_le' (a : Nat) (t : Node) : cntL a t.kids ≤ cnt a t := by
+  cases t with
+  | mk j k d as ks => simp only [Node.kids, cnt_mk]; omega
+
+theorem kids_ids_nodup (s : St) (hi : Inv s) (p : Nat) (pn : Node) (hp : s.find p = some pn) : (pn.kids.map (·.id)).Nodup := by
+  rw [List.nodup_iff_count]
+  intro a
+  have hsub := isSubL_of_findInL p s.roots pn hp
+  have h1 := isSubL_cnt pn a s.roots hsub
+  have h2 := hi.1 a
+  have h3 := cntL_kids_le' a pn
+  have h4 := count_ids_le a pn.kids
+  omega
+
+theorem map_id_dropWhile (old : Nat) : ∀ (l : List Node), (l.dropWhile (·.id != old)).map (·.id) = (l.map (·.id)).dropWhile (· != old)
+  | [] => rfl
+  | n :: r => by
+    simp only [List.dropWhile, List.map_cons]
+    split <;> simp_all [map_id_dropWhile old r]
+
+theorem map_id_filter (new : Nat) : ∀ (l : List Node), (l.filter (·.id != new)).map (·.id) = (l.map (·.id)).filter (· != new)
+  | [] => rfl
+  | n :: r => by
+    simp only [List.filter, List.map_cons]
+    split <;> simp_all [map_id_filter new r]
+
+theorem ref_ids (pn : Node) (old new : Nat) :
+    ((((pn.kids.dropWhile (·.id != old)).drop 1).filter (·.id != new)).head?.map (·.id))
+      = ((((pn.kids.map (·.id)).dropWhile (· != old)).drop 1).filter (· != new)).head? := by
+  rw [← map_id_dropWhile, ← List.map_drop, ← map_id_filter, List.head?_map]
+
 end XmlRs.Dom
